@@ -1678,6 +1678,20 @@ func genC09(g *G, sc *Scenario, tier string) {
 	for k := g.Range(0, 2); k > 0; k-- {
 		sc.Ops = append(sc.Ops, Op{K: "post", DS: "ds", Ents: ents()})
 	}
+	if g.P(0.025) {
+		// a dataset of more than a thousand entities, one of the early ones deleted long ago: a sync that lists only a
+		// few of them removes all the others
+		var big []Ent
+		for k := 0; k < 1100; k++ {
+			big = append(big, Ent{"id": fmt.Sprintf("%sbig%04d", MkE, k), "props": map[string]any{MkS + "n": float64(k)}, "refs": map[string]any{}})
+		}
+		m.Batch("ds", big)
+		sc.Ops = append(sc.Ops, Op{K: "post", DS: "ds", Ents: big})
+		gone := []Ent{{"id": fmt.Sprintf("%sbig%04d", MkE, g.Range(1, 40)), "deleted": true, "props": map[string]any{}, "refs": map[string]any{}}}
+		m.Batch("ds", gone)
+		sc.Ops = append(sc.Ops, Op{K: "post", DS: "ds", Ents: gone})
+		sc.Note = "big dataset"
+	}
 	ids := []string{"syncA", "syncB"}
 	client := func() []Op {
 		// one client's view of a sync: start, 0-3 batches, end; with deviations
@@ -1711,7 +1725,9 @@ func genC09(g *G, sc *Scenario, tier string) {
 			endOp := Op{K: "post", DS: "ds", Ents: ents(), M: map[string]any{"id": eid, "end": true}}
 			if g.P(0.35) {
 				endOp.M["scanJumpAt"], endOp.M["scanJumpMs"] = g.Range(1, 3), lease*1000+g.PickInt([]int{1, 5000})
-			} else if g.P(0.25) {
+			} else if g.P(0.25) && sc.Note != "big dataset" {
+				// (a dataset of more than a thousand entities is deleted in several commits, of which a failing one leaves
+				// the earlier ones in place: not combined with this fault)
 				// the completion of this end request fails when it stores its deletions: the sync is over all the
 				// same; later the client tries its end request again, with and without the lease time gone by
 				endOp.M["commitFail"] = true
